@@ -1,0 +1,5 @@
+//go:build !verif
+
+package interpreter
+
+func verifTraceProcess(i *Interpreter) {}
